@@ -92,6 +92,14 @@ func verifHarnessC06() {
 		}
 	}
 	verifAssert(db.Close() == nil, "C06.close-err")
+	if verifParam("r_index") != 0 || verifParam("r_io") != 0 || verifParam("r_dfs_hi") != 0 || verifParam("r_shards") != 0 {
+		// the merge is adopted by a process with ANOTHER configuration (index type, shard count, back-end, a
+		// DataFileSize below the size of existing files), which keeps running the database afterwards
+		dir := opts.DirPath
+		opts = verifReaderOptions(opts)
+		opts.DirPath = dir
+		verifReach("adopted-under-other-configuration")
+	}
 	db, err = Open(opts)
 	if err != nil {
 		verifNote("reopen-err", err)
